@@ -1,6 +1,8 @@
 package main
 
 import (
+	"encoding/base64"
+	"encoding/hex"
 	"bytes"
 	"context"
 	"crypto"
@@ -215,6 +217,22 @@ func runC03(c *Ctx) {
 						Image: img, ClSpec: uint64(1 + r.Intn(9)), Timestamp: ts, SvsmSnpMeasurement: svsm,
 						VCS: &localnonvcs.T{Root: vdir}, OutDir: fmt.Sprintf("s%d", state),
 					}
+					if r.Intn(3) == 0 {
+						// the same output file written before by a LONGER endorsement (all VMSA counts, three shapes, another
+						// image) and now replaced with permission to overwrite: what is stored afterwards is the new
+						// endorsement's bytes and nothing else
+						long := *ec
+						long.Image = cleanFirmware(2*1024*1024, byte(201+r.Intn(50)))
+						long.SevSnp = &sev.SnpEndorsementRequest{Svn: 1, Product: spb.SevProduct_SEV_PRODUCT_MILAN}
+						long.Tdx = &tdx.EndorsementRequest{Svn: 1, IncludeEarlyAccept: true, MachineShapes: []string{"c3-standard-8", "c3-standard-22", "c3-standard-4"}}
+						long.SvsmSnpMeasurement = r.Bytes(48)
+						if err := endorse.VirtualFirmware(endorse.NewContext(ctx0, &long)); err != nil {
+							c.Find("c03/endorse/failed/"+st.name, "endorse.VirtualFirmware failed in a reachable key state: "+err.Error(),
+								fmt.Sprintf("%s state=%d (first endorsement of a pair)", st.name, state))
+							return
+						}
+						c.Count("endorse/replaces-longer-file")
+					}
 					if err := endorse.VirtualFirmware(endorse.NewContext(ctx0, ec)); err != nil {
 						c.Find("c03/endorse/failed/"+st.name, "endorse.VirtualFirmware failed in a reachable key state: "+err.Error(),
 							fmt.Sprintf("%s state=%d", st.name, state))
@@ -423,6 +441,30 @@ func c03Inspect(c *Ctx, st *c03Stack, e *c03End) {
 			c.Find("c03/inspect/error", "inspect failed on a genuine endorsement: "+err.Error(), st.name)
 		}
 		return w.Bytes()
+	}
+	// the text forms decode back to the stored bytes (explicit --bytesform hex / base64), for every length class
+	for _, fm := range []struct {
+		name string
+		form gcetcbendorsement.BytesForm
+		dec  func([]byte) ([]byte, error)
+	}{{"hex", gcetcbendorsement.BytesHex, func(b []byte) ([]byte, error) { return hex.DecodeString(string(b)) }},
+		{"base64", gcetcbendorsement.BytesBase64, func(b []byte) ([]byte, error) { return base64.StdEncoding.DecodeString(string(b)) }}} {
+		for what, want := range map[string][]byte{"payload": end.SerializedUefiGolden, "signature": end.Signature} {
+			w := &bufWriter{}
+			ctx := gcetcbendorsement.WithInspect(context.Background(), &gcetcbendorsement.Inspect{Writer: w, Form: fm.form})
+			var err error
+			if what == "payload" {
+				err = gcetcbendorsement.InspectPayload(ctx, end)
+			} else {
+				err = gcetcbendorsement.InspectSignature(ctx, end)
+			}
+			got, derr := fm.dec(w.Bytes())
+			c.Count("inspect/" + fm.name + "-" + what)
+			if err != nil || derr != nil || !bytes.Equal(got, want) {
+				c.Find("c03/inspect/"+fm.name+"-not-verbatim", fmt.Sprintf("the %s rendering of the %s (%d bytes) does not decode to the stored bytes (err=%v, decode=%v, %d bytes decoded)",
+					fm.name, what, len(want), err, derr, len(got)), st.name)
+			}
+		}
 	}
 	payload := get(func(ctx context.Context) error { return gcetcbendorsement.InspectPayload(ctx, end) })
 	sig := get(func(ctx context.Context) error { return gcetcbendorsement.InspectSignature(ctx, end) })
